@@ -140,7 +140,24 @@ def run_verus_unit(unit, threads=8, rlimit=None):
                     break
             if item:
                 break
-        fname = enclosing_fn(src, min(lines)) if lines else '?'
+        # attribute the failure to the function whose body contains the failing site: for a precondition
+        # failure that is the call site (secondary span), not the callee's requires clause (primary span)
+        site = None
+        for sp in spans:
+            lab = (sp.get('label') or '').lower()
+            if 'call' in lab or 'at this' in lab or 'exit' in lab or 'end of the function' in lab or 'loop' in lab:
+                site = sp['line_start']
+        if site is None and 'precondition' in msg.lower():
+            sec = [sp['line_start'] for sp in spans if not sp.get('is_primary')]
+            site = sec[0] if sec else None
+        if site is None:
+            site = prim[0]['line_start'] if prim else (min(lines) if lines else None)
+        fname = enclosing_fn(src, site) if site else '?'
+        item = None
+        for it in built.linemap:
+            if site and it['start'] <= site <= it['end']:
+                item = it
+                break
         if d.get('code') is not None:
             # rustc front-end error (type/resolve): the unit is not verifiable as emitted -> undecided
             undec = True
@@ -157,6 +174,7 @@ def run_verus_unit(unit, threads=8, rlimit=None):
             clause = ' '.join((t.get('text', '') or '').strip() for t in prim[0].get('text', []))[:200]
         r.failures.append(dict(function=fname, kind=kind, message=msg, clause=clause,
                                rendered=d.get('rendered', ''), item=item,
+                               degraded=bool(item and item.get('degraded')),
                                line=prim[0]['line_start'] if prim else None))
     # the canary must be among the failures
     can = [f for f in r.failures if f['function'] == 'verif_canary_must_fail']
